@@ -61,7 +61,7 @@ else:
 
         def parse_string(self, *a, **k):
             r = self.inner.parse_string(*a, **k)
-            if threading.current_thread().name == "victim":
+            if threading.current_thread().name == "victim" and cfg.get("point", "match") == "match":
                 victim_matched.set()
                 intruder_done.wait(timeout=cfg.get("wait", 0.25))   # with the lock held the intruder cannot finish: schedule infeasible
             return r
@@ -69,6 +69,34 @@ else:
     for n in M.lookup_parsers:
         for a in (None, "*"):
             M.lookup_parsers[n][a] = Proxy(M.lookup_parsers[n][a])
+    if cfg.get("point") == "scrub":
+        # second schedule: the intruder runs a whole call between the victim's scrub and its NULL substitution
+        inner_scrub = M.scrub
+
+        def scrub_proxy(*a, **k):
+            r = inner_scrub(*a, **k)
+            if threading.current_thread().name == "victim" and cfg.get("inside"):
+                victim_matched.set()
+                intruder_done.wait(timeout=cfg.get("wait", 0.25))
+            return r
+
+        M.scrub = scrub_proxy
+
+        # ... and (wherever the lock ends) right before the victim reads the recorded NULL slots for its substitution loop
+        class ModProxy:
+            def __init__(self, inner):
+                object.__setattr__(self, "_inner", inner)
+
+            def __getattr__(self, name):
+                if name == "null_locations" and threading.current_thread().name == "victim" and not victim_matched.is_set():
+                    victim_matched.set()
+                    intruder_done.wait(timeout=cfg.get("wait", 0.25))
+                return getattr(object.__getattribute__(self, "_inner"), name)
+
+            def __setattr__(self, name, value):
+                setattr(object.__getattribute__(self, "_inner"), name, value)
+
+        M._utils = ModProxy(M._utils)
     res = {}
 
     def victim():
